@@ -396,6 +396,9 @@ impl<'a, R: AsyncRead + Unpin, W: AsyncWrite + Unpin> Request<'a, R, W> {
                 return Ok(());
             }
 
+            // Never wait for the client while replies to its records are still unsent
+            std::future::poll_fn(|cx| Pin::new(&mut *self).poll_output(cx)).await?;
+
             // Parser::stream_buffer should never fill when the active stream is None
             debug_assert!(self.parser.stream_buffer().is_empty());
             self.parser.compress();
@@ -529,6 +532,10 @@ impl<'a, R: AsyncRead + Unpin, W: AsyncWrite + Unpin> Request<'a, R, W> {
                 }
                 return Poll::Ready(Ok(status.stream));
             }
+
+            // Never wait for the client while replies to its records are still unsent:
+            // it may in turn be waiting for exactly these replies before sending more.
+            ready!(Pin::new(&mut *this).poll_output(cx))?;
 
             // Both stream and protocol data buffers are empty here
             this.parser.compress();
@@ -695,13 +702,10 @@ impl Token {
         output: &mut W,
     ) -> io::Result<stream::Parser<'a>> {
         use futures_util::{AsyncReadExt, AsyncWriteExt};
+        // Start by parsing whatever a previous request left in the buffer: complete
+        // records in there must be handled (and answered) before waiting for new input.
+        let mut read = 0;
         loop {
-            let read = input.read(parser.input_buffer()).await?;
-            if read == 0 {
-                // Client-initiated connection shutdown
-                return Err(io::ErrorKind::ConnectionReset.into());
-            }
-
             let status = parser.parse(read);
             if !status.output.is_empty() {
                 output.write_all(status.output).await?;
@@ -709,6 +713,12 @@ impl Token {
             }
             if status.done {
                 return parser.into_stream_parser().map_err(Into::into);
+            }
+
+            read = input.read(parser.input_buffer()).await?;
+            if read == 0 {
+                // Client-initiated connection shutdown
+                return Err(io::ErrorKind::ConnectionReset.into());
             }
         }
     }
